@@ -3,6 +3,9 @@
 From Coq Require Import String List ZArith Bool Arith.
 Import ListNotations.
 From LV Require Import Base.ListAux Goose.Epoch Goose.Thin.
+(* the hand-written part of the source tie (tools/py2gallina_c08.py, harness/lv/c08_tie.py); required here only so that
+   the targeted build of the C08 check compiles it; nothing below uses it *)
+From LV Require Goose.GenC08Tie.
 Open Scope Z_scope.
 
 Definition zlist_eqb := list_eqb Z.eqb.
